@@ -44,19 +44,18 @@ Proof. vm_compute. reflexivity. Qed.
 Lemma ex_checked_run_other_schedule : checked_labels pick_last = Some ["echoed"; "done"; "succ"; "zero"].
 Proof. vm_compute. reflexivity. Qed.
 
-(* hence (prints_admitted_checked) the reference semantics prints the same labels, from the
-   abstraction of the initial configuration, using the linear rules only *)
+(* hence (prints_admitted_checked_init) the reference semantics prints the same labels, from the
+   program's own SAX initial configuration, using the linear rules only *)
 Lemma ex_sax_admits : exists p' C',
   ex_prog = Some p' /\
-  sax_steps (p_funs p') false (α (init_config p')) ["echoed"; "done"; "succ"; "zero"] C'.
+  sax_steps (p_funs p') false (sax_init p') ["echoed"; "done"; "succ"; "zero"] C'.
 Proof.
   pose proof ex_checked_run as H. unfold checked_labels in H.
   destruct ex_prog as [p'|]; [|done]. exists p'.
   destruct (exec_checked 400 pick0 (p_types p') (p_funs p') (init_config p')) as [r|] eqn:Hr; [|done].
   destruct r as [c| |]; try done. simplify_eq.
-  destruct (prints_admitted_checked _ _ _ _ _ _ Hr) as (_ & ls & Hs & Hl).
-  exists (α c). split; [done|]. cbn [res_config] in *. rewrite H in Hl.
-  change (labels (init_config p')) with (@nil string) in Hl. cbn in Hl. by subst ls.
+  destruct (prints_admitted_checked_init _ _ _ _ Hr) as (_ & Hs).
+  exists (α c). split; [done|]. cbn [res_config] in Hs. by rewrite H in Hs.
 Qed.
 
 (* the rules of Sax.v fire by themselves: print, then the axiom `close self` is a message *)
